@@ -8,6 +8,7 @@ from checks.common import run_components, finish_standard, replay_standard
 COMPONENTS = [
     {'name': 'c05', 'oracle': True, 'what': 'lossy stills (VP8 + every ALPH variant, simple and VP8X containers): read_image vs Spec.Still (composed Coq spec) and vs libwebp no-fancy',
      'normalise': lambda s: 'ERR' if (s.startswith('ERR') or s.startswith('Err') or s.startswith('error')) else s},
+    {'name': 'readimage', 'oracle': True, 'what': 'read_image / read_frame glue through the public API (stills with every ALPH variant, wrappings, size mismatches, wrong buffer lengths, animations with chunks between frames) vs Model.ReadImage'},
     {'name': 'c13', 'oracle': True, 'what': 'fill_rgb / fill_rgba planes', 'normalise': lambda s: s.replace(' SPECDIFF', '')},
     {'name': 'alpha', 'oracle': True, 'what': 'alpha application loop', 'normalise': lambda s: s.replace(' SPECDIFF', '')},
 ]
